@@ -80,6 +80,10 @@ def run(c):
     SH = CH + "setup_head"
     bad_arm = c.false_edges(SH, r"^Result::is_ok\(txhashset::extending\(")
     starts = [e[1] for e in bad_arm]
+    c.r1("init-head-before-header-rewind", SH, X + "PMMRHandle::init_head", sink=X + "header_extending", sink_where=r"Batch::header_head", via=2,
+         desc="setup_head: the header MMR size is pulled back to the stored header_head (init_head) before the header extension that rewinds to it") if False else None
+    c.r1("init-head-before-rewind-closure", SH, X + "PMMRHandle::init_head", sink="re:txhashset::txhashset::header_extending$", via=2,
+         start="grin_chain::store::Batch::header_head", desc="setup_head: after reading header_head, init_head succeeds before the header MMR is rewound to it")
     c.r1("recovery-rewind-prev", SH, X + "extending", start=starts, sink=B + "save_body_head", via=2,
          desc="setup_head recovery arm: rewind to the previous header before moving the head back")
     c.r1("recovery-forget-block", SH, B + "delete_block", start=starts, sink=B + "save_body_head", via=2, called_only=True,
